@@ -88,10 +88,24 @@ def run(tier):
     uniq = {json.dumps(b): b for b in behs}
     behs = list(uniq.values())
     rng.shuffle(behs)
-    behs = behs[: (3000 if thorough else 400)]
+    behs = behs[: (3000 if thorough else 250)]
     cases = [dbgen.beh_to_steps(b, 3, pad=rng.choice([0, 10, 40])) for b in behs]
     nb = 16 if thorough else 8
     batches = [("tlc-%d" % i, cases[i::nb], False) for i in range(nb) if cases[i::nb]]
+    # transition cover (CoverSimpleDB.tla): breadth-first exhaustive exploration with one shortest labelled path per state; the path is printed the
+    # first time a step with a new abstract signature (phase, tables, flusher / compactor stage, which layer answers each key, options; label) is taken.
+    # After dropping paths that are prefixes of others, replaying the rest takes every abstract transition of the bounded model on the real database.
+    cov, _ = judge.gen_behaviours("CoverSimpleDB.tla", "Cover_SimpleDB_t.cfg" if thorough else "Cover_SimpleDB_q.cfg", workers=1, tag="COV", timeout=1800,
+                                  outcome=o, what="transition cover of the sequential model (one path per abstract transition)")
+    paths = {tuple(json.dumps(e, sort_keys=True) for e in b) for b in cov}
+    prefixes = {p[:i] for p in paths for i in range(1, len(p))}
+    cover = [[json.loads(e) for e in p] for p in sorted(paths) if p not in prefixes]
+    log("[C01] transition cover: %d abstract transitions, %d distinct paths, %d after dropping prefixes" % (len(cov), len(paths), len(cover)))
+    ccases = [dbgen.beh_to_steps(b, 2, pad=[0, 10, 40][i % 3]) for i, b in enumerate(cover)]
+    batches += [("cover-%d" % i, ccases[i::nb], False) for i in range(nb) if ccases[i::nb]]
+    o.extra["transition_cover"] = {"abstract_transitions": len(cov), "paths_replayed": len(cover)}
+    if len(cover) < 100:
+        o.problem("transition cover generation produced only %d paths" % len(cover))
 
     # impl -> spec: long programs
     nlong = 24 if thorough else 6
@@ -129,9 +143,10 @@ def run(tier):
 
     kinds = run_batches(o, binary, batches, "C01")
     o.evaluations = sum(len(b[1]) for b in batches)
-    o.nontrivial = len(behs) + nlong + 1
+    o.nontrivial = len(behs) + len(cover) + nlong + 1
     o.extra["event_kinds"] = kinds
-    o.rule = ("cases = distinct TLC-simulated behaviours of GenSimpleDB.tla (sequential projection, 3 keys, all option sets) + seeded random "
+    o.rule = ("cases = distinct TLC-simulated behaviours of GenSimpleDB.tla (sequential projection, 3 keys, all option sets) + the transition cover of "
+              "CoverSimpleDB.tla (one shortest path per abstract transition of the bounded model, prefixes dropped) + seeded random "
               "multi-session programs (fresh options per session, background or manual compaction); every case contains at least one "
               "rotation/flush or restart (non-trivial); distinct by action sequence")
     for name, cs, _ in batches[:1] + batches[-2:]:
